@@ -74,6 +74,9 @@ structure SchemaFile where
   /-- imported files (indices into `files`), in document order -/
   imports : List Nat
   comps : List Component
+  /-- the XML Schema namespace is the file's default namespace: schema vocabulary and builtin type names are
+      written without a prefix (`<element name="a" type="string"/>`); the own namespace then has a prefix -/
+  xsdDefault : Bool := false
 deriving Repr, Inhabited
 
 structure Part where
@@ -141,7 +144,7 @@ def qname (f : SchemaFile) (ns : Nat) (n : String) : String :=
   if p.isEmpty then n else p ++ ":" ++ n
 
 def renderTypeRef (f : SchemaFile) : TypeRef → String
-  | .builtin b => "xs:" ++ b
+  | .builtin b => if f.xsdDefault then b else "xs:" ++ b
   | .named ns n => qname f ns n
 
 def renderOccurs (o : Occurs) : String :=
@@ -219,9 +222,14 @@ def renderSchemaOpen (s : SchemaSet) (f : SchemaFile) (ind : String) : String :=
   String.join (f.prefixes.map fun (ns, p) => (if p.isEmpty then " xmlns" else " xmlns:" ++ p) ++ "=\"" ++ xmlEsc (uriOf s ns) ++ "\"") ++
   " targetNamespace=\"" ++ xmlEsc (uriOf s f.tns) ++ "\" elementFormDefault=\"qualified\" attributeFormDefault=\"unqualified\">\n"
 
+/-- the same document with the XML Schema namespace as default namespace instead of bound to `xs` -/
+def unprefixXs (t : String) : String :=
+  ((t.replace "<xs:" "<").replace "</xs:" "</").replace "xmlns:xs=" "xmlns="
+
 def renderFile (s : SchemaSet) (f : SchemaFile) : String :=
-  "<?xml version=\"1.0\" encoding=\"UTF-8\"?>\n" ++ renderSchemaOpen s f "" ++ renderImports s f ++
-  String.join (f.comps.map (renderComponent f)) ++ "</xs:schema>\n"
+  let t := "<?xml version=\"1.0\" encoding=\"UTF-8\"?>\n" ++ renderSchemaOpen s f "" ++ renderImports s f ++
+    String.join (f.comps.map (renderComponent f)) ++ "</xs:schema>\n"
+  if f.xsdDefault then unprefixXs t else t
 
 def renderBoundDir (tag : String) (d : BoundDir) : String :=
   "      <wsdl:" ++ tag ++ ">\n" ++
